@@ -1,5 +1,6 @@
 """C10 - binding calls validate arguments, hand only legal sets to the OS, and round-trip.
-Oracle: spec/Bind.tla (Rel); model: spec/MC_Bind.tla; binding: spec/TraceBind.tla, harness/hwv_bind.c"""
+Oracle: spec/Bind.tla (Rel, SameHandling); model: spec/MC_Bind.tla on the topology kinds below and on one topology per
+shape class of spec/MC_BindShape.tla, with the set classes of spec/BindClasses.tla; binding: spec/TraceBind.tla, harness/hwv_bind.c"""
 import os, re, time, random, json, itertools, concurrent.futures as cf
 import vlib
 
@@ -18,6 +19,9 @@ KINDS = [
     ("xmld",        "xmld", "node:3_pu:2/0-3/0-1", 0, "-"),
     ("xmld_ts",     "xmld", "node:3_pu:2/0-3/0-1", 1, "-"),
 ]
+
+# base machine of the shape dimension (spec/MC_BindShape.tla): "node:K pu:P"
+SHAPE_K, SHAPE_P = 3, 2
 
 CPU_TOK = {1: "t1", 2: "t2", 3: "t3", 4: "t4", 5: "rest", 6: "x", 7: "out", 8: "inf"}
 NODE_TOK = {1: "n1", 2: "n2", 4: "nrest", 3: "nx", 7: "out", 8: "inf"}
@@ -106,21 +110,63 @@ class KindInfo:
         return "reset %s %s %d %s %d %s" % (self.kind, self.desc, self.flag, self.env, thr, " ".join(str(c) for c in (self.chosen + [-1] * 4)[:4]))
 
 
-def cfg_record(ki, threads, ops, cpufam, nodefam, cpuflags, memflags, pols, lens, loadcomps, onlyinit):
-    """one configuration of MC_Bind: the topology kind as the real library shows it + an alphabet of calls"""
+def tp_name(ki):
+    return "TP_" + ki.name
+
+
+def tp_record(ki):
+    """the topology of a kind as the record of Bind.tla (over the atoms of MC_Bind)"""
     nodes = "{" + ", ".join("[os |-> %d, cpus |-> %s]" % (o, tset(c)) for o, c in sorted(ki.Nodes.items())) + "}"
+    return ("[ts |-> %s, cs |-> %s, cc |-> %s, ca |-> %s, ns |-> %s, nc |-> %s, na |-> %s, nodes |-> %s, hooks |-> %s, "
+            "kallowed |-> %s, kmems |-> %s]" % ("TRUE" if ki.ts else "FALSE", tset(ki.CS), tset(ki.CC), tset(ki.CA), tset(ki.NS),
+                                                 tset(ki.NC), tset(ki.NA), nodes, tstrs(ki.Hooks), tset(ki.KAllowed), tset(ki.KMems)))
+
+
+def cpu_classes(ki):
+    """TLA+ text: the boundary classes of cpusets of this kind (computed by TLC, spec/BindClasses.tla)"""
+    return "CpuClasses(%s, %s)" % (tp_name(ki), tset(ki.cpu_atoms))
+
+
+def node_classes(ki):
+    return "NodeClasses(%s, %s)" % (tp_name(ki), tset(ki.node_atoms))
+
+
+def cfg_record(ki, threads, ops, cpufam, nodefam, cpuflags, memflags, pols, lens, loadcomps, onlyinit, twin=False):
+    """one configuration of MC_Bind: the topology kind as the real library shows it + an alphabet of calls
+    (cpufam / nodefam: a list of sets, or the TLA+ text of a family)"""
+    nodes = "{" + ", ".join("[os |-> %d, cpus |-> %s]" % (o, tset(c)) for o, c in sorted(ki.Nodes.items())) + "}"
+    fam = lambda f: f if isinstance(f, str) else tsets(f)
     d = [("TS", "TRUE" if ki.ts else "FALSE"), ("CS", tset(ki.CS)), ("CC", tset(ki.CC)), ("CA", tset(ki.CA)), ("NS", tset(ki.NS)),
          ("NC", tset(ki.NC)), ("NA", tset(ki.NA)), ("NodesC", nodes), ("Hooks", tstrs(ki.Hooks)), ("KAllowed", tset(ki.KAllowed)),
-         ("KMems", tset(ki.KMems)), ("ThreadsC", tstrs(threads)), ("Ops", tstrs(ops)), ("CpuFam", tsets(cpufam)),
-         ("NodeFam", tsets(nodefam)), ("CpuFlagsC", tset(cpuflags)), ("MemFlagsC", tset(memflags)), ("Pols", tset(pols)),
-         ("Lens", tset(lens)), ("LoadComps", tstrs(loadcomps)), ("OnlyInit", "TRUE" if onlyinit else "FALSE")]
+         ("KMems", tset(ki.KMems)), ("ThreadsC", tstrs(threads)), ("Ops", tstrs(ops)), ("CpuFam", fam(cpufam)),
+         ("NodeFam", fam(nodefam)), ("CpuFlagsC", tset(cpuflags)), ("MemFlagsC", tset(memflags)), ("Pols", tset(pols)),
+         ("Lens", tset(lens)), ("LoadComps", tstrs(loadcomps)), ("OnlyInit", "TRUE" if onlyinit else "FALSE"),
+         ("Twin", "TRUE" if twin else "FALSE")]
     return "[" + ",\n    ".join("%s |-> %s" % x for x in d) + "]"
 
 
-def gen_module(cfgs):
-    """MC_Bind_cfg.tla: the configurations MC_Bind explores (an extended module: TLC evaluates the definition once)"""
-    return ("---- MODULE MC_Bind_cfg ----\nEXTENDS Integers\nCfgs == [\n" +
+def gen_module(cfgs, kinds):
+    """MC_Bind_cfg.tla: the configurations MC_Bind explores (an extended module: TLC evaluates the definition once,
+    including the set classes BindClasses computes for a configuration)"""
+    return ("---- MODULE MC_Bind_cfg ----\nEXTENDS BindClasses\n" +
+            "".join("%s == %s\n" % (tp_name(ki), tp_record(ki)) for ki in kinds) + "Cfgs == [\n" +
             ",\n".join("  %s |-> %s" % (tag, rec) for tag, rec in cfgs) + "]\n====\n")
+
+
+def lst(xs):
+    return ",".join(str(x) for x in sorted(xs))
+
+
+def shape_kinds(ctx):
+    """the shape dimension: one topology per class of MC_BindShape (allowed PUs / nodes of the base machine chosen by TLC)"""
+    out, st = ctx.tlc_mc("MC_BindShape", "SPECIFICATION Spec\nCONSTANTS K = %d\n P = %d\nINVARIANT Emit\nCHECK_DEADLOCK FALSE\n"
+                         % (SHAPE_K, SHAPE_P), tag="shape", workers=1, heap="1g", timeout=600)
+    if st["error"] or st["rc"] != 0:
+        raise vlib.Infra("MC_BindShape failed (model-level, not a violation): %s\n%s" % (st["error"], out[-2000:]))
+    shapes = sorted(printed(out, "SHAPE"), key=lambda x: x["sig"])
+    if not shapes:
+        raise vlib.Infra("MC_BindShape emitted no shape")
+    return shapes
 
 
 MC_CFG = ("SPECIFICATION Spec\nVIEW View\n"
@@ -209,6 +255,11 @@ def tours(init, edges, frac, chunk, rng):
 
 
 def run(ctx, replay=None):
+    if replay:
+        shapes_f = None
+    else:                                      # the shape model needs nothing of the build: run it meanwhile
+        pool = cf.ThreadPoolExecutor(max_workers=1)
+        shapes_f = pool.submit(shape_kinds, ctx)
     ctx.build_lib()
     exe = ctx.cc("hwv_bind.c", "hwv_bind")
     vcfg = "SPECIFICATION Spec\nCONSTANT DocStrict = %s\nPOSTCONDITION Accepted\nCHECK_DEADLOCK FALSE\n" % ("TRUE" if DOC_STRICT else "FALSE")
@@ -236,19 +287,34 @@ def run(ctx, replay=None):
     chosen_native = sorted(rng.sample(allowed, 4))
 
     # ---- (0) look at the real topologies of every kind (Reset events only)
+    shapes = shapes_f.result()
+    pool.shutdown()
+    all_kinds = list(KINDS)
+    shape_of = {}
+    for sh in shapes:
+        desc = "node:%d_pu:%d/%s/%s" % (SHAPE_K, SHAPE_P, lst(sh["ac"]), lst(sh["an"]))
+        for flag in ((1, 0) if thorough else (1,)):
+            name = "shape_%s%s" % ("".join(map(str, sh["sig"])), "_ts" if flag else "")
+            all_kinds.append((name, "xmld", desc, flag, "-"))
+            shape_of[name] = sh
     infof = ctx.path("info.beh")
     with open(infof, "w") as f:
-        for name, kind, desc, flag, env in KINDS:
+        for name, kind, desc, flag, env in all_kinds:
             ch = chosen_native if kind == "native" else [0, 1, 2, 3]
             f.write("reset %s %s %d %s 0 %s\n" % (kind, desc, flag, env, " ".join(map(str, ch))))
     ctx.record(exe, infof, infof + ".ndjson")
     evs = [json.loads(x) for x in open(infof + ".ndjson") if x.strip()]
-    if len(evs) != len(KINDS) or any(e.get("e") != "Reset" for e in evs):
+    if len(evs) != len(all_kinds) or any(e.get("e") != "Reset" for e in evs):
         raise vlib.Infra("could not load the topologies of the C10 universe: %r" % (evs[-1:],))
     kinds = []
-    for (name, kind, desc, flag, env), ev in zip(KINDS, evs):
+    for (name, kind, desc, flag, env), ev in zip(all_kinds, evs):
         ch = chosen_native if kind == "native" else sorted(ranges_to_set(ev["cs"]))[:4]
         kinds.append(KindInfo(name, kind, desc, flag, env, ev, ch))
+        sh = shape_of.get(name)
+        if sh and (ranges_to_set(ev["cs"]) != set(sh["ac"]) or ranges_to_set(ev["ns"]) != set(sh["an"])
+                   or {n["os"]: ranges_to_set(n["cpus"]) for n in ev["nodes"]}
+                   != {n: set(range(n * SHAPE_P, (n + 1) * SHAPE_P)) & set(sh["ac"]) for n in sh["an"]}):
+            raise vlib.Infra("the library did not build the topology shape %s the model asked for: %r" % (name, ev))
 
     # ---- (1) model runs: job = (configuration name, ki, thr, configuration record, fraction of transitions toured, chunk, weight)
     jobs = []
@@ -258,7 +324,15 @@ def run(ctx, replay=None):
     cpuflags = list(range(0, 32)) + [1 << 20, (1 << 20) + 2, -1]
     S = lambda *a: frozenset(a)
     Q = (lambda q, t: t) if thorough else (lambda q, t: q)
+    shape_flags = Q([0, 4, 8, 32, 36], [0, 1, 2, 4, 8, 16, 32, 33, 34, 36, 40, 48])
     for ki in kinds:
+        if ki.name in shape_of:
+            # (S) the shape dimension: every memory binding entry point x the boundary classes of cpusets and nodesets
+            #     (computed by TLC for this topology) x policy, each request followed by its canonical form
+            jobs.append(("mem_" + ki.name, ki, 0,
+                         cfg_record(ki, ["main"], MEM_SET_OPS + MEM_GET_OPS, cpu_classes(ki), node_classes(ki), [0],
+                                    shape_flags, Q([0, 1, 2, 3, 4], [0, 1, 2, 3, 4, 5]), Q([1], [0, 1]), [], True, twin=True), 1.0, 60, 2))
+            continue
         catoms, natoms = ki.cpu_atoms, ki.node_atoms
         full_c, full_n = powerset(catoms), powerset(natoms)
         topo4 = [s for s in powerset([a for a in catoms if a <= 4])]
@@ -302,7 +376,7 @@ def run(ctx, replay=None):
 
     def run_group(gi):
         grp = groups[gi]
-        out, st = ctx.tlc_mc("MC_Bind", MC_CFG, tag="mc%d" % gi, extra_modules=[("MC_Bind_cfg.tla", gen_module([(j[0], j[3]) for j in grp]))],
+        out, st = ctx.tlc_mc("MC_Bind", MC_CFG, tag="mc%d" % gi, extra_modules=[("MC_Bind_cfg.tla", gen_module([(j[0], j[3]) for j in grp], kinds))],
                              workers=max(2, min(8, vlib.NCPU // nrun)), heap="6g", timeout=2400)
         if st["error"] or st["rc"] != 0:
             raise vlib.Infra("model check of MC_Bind failed (model-level, not a violation): %s\n%s" % (st["error"], out[-3000:]))
@@ -357,10 +431,14 @@ def run(ctx, replay=None):
              "TLC enumerated is taken once - every entry point x flag word x set over the atoms {4 chosen PUs, rest, disallowed, outside, "
              "infinite tail} x policy from the initial state of each of %d topology kinds; every call of a smaller alphabet from every "
              "reachable pair of thread affinities / memory policies for the kinds with OS hooks; hwloc_topology_load from every binding; "
+             "every memory binding entry point x the boundary classes of cpusets / nodesets TLC computes (BindClasses) x policy on one "
+             "topology per shape class of MC_BindShape (%d classes of allowed PUs / nodes of node:%d pu:%d: disallowed PUs / nodes, "
+             "CPU-less nodes, PUs without a local node), each request followed by its canonical form (nodeset flavour, fixed set) and "
+             "the two compared by Bind!SameHandling; "
              "each tour was replayed on the rebuilt library with the system calls intercepted and validated by TLC against Bind!Rel; "
-             "a behaviour is non-trivial when it contains at least one call" % len(kinds),
+             "a behaviour is non-trivial when it contains at least one call" % (len(KINDS), len(shapes), SHAPE_K, SHAPE_P),
         assumptions=["Linux x86_64 sandbox: the kernel's own behaviour (sched_setaffinity/set_mempolicy semantics) is trusted and read back with raw system calls",
                      "memory binding on the live system is limited to the NUMA nodes the sandbox has; kernel refusals are accepted where the property leaves them open",
                      "ENOMEM paths and hwloc_topology_set_pid() are not explored"],
         exhaustive=False,
-        extra={"behaviours": len(behs), "model_runs": meta, "chosen_cpus": chosen_native, "doc_strict": DOC_STRICT})
+        extra={"behaviours": len(behs), "model_runs": meta, "shapes": shapes, "chosen_cpus": chosen_native, "doc_strict": DOC_STRICT})
